@@ -169,10 +169,7 @@ class FlowFields(ImageBatch):
             torch.tensor_split,
             Tensor.tensor_split,
         ):
-            if grid and isinstance(grid[0], Grid):
-                grid = [grid] * len(data)  # not split along batch dimension
-            if grid is None or len(grid) != len(data):
-                raise AssertionError("expected one group of sampling grids for each split result")
+            grid = cls._torch_function_split_grids(data, grid)
             return tuple(
                 cls._torch_function_result(func, res, g, axes) for res, g in zip(data, grid)
             )
